@@ -701,6 +701,8 @@ func (sd *SpecAnalyser) compareSchema(location DifferenceLocation, schema1, sche
 		} else {
 			sd.addDiffs(location, addTypeDiff([]TypeDiff{}, TypeDiff{Change: ChangedType, FromType: getSchemaTypeStr(schema1), ToType: getSchemaTypeStr(schema2)}))
 		}
+	} else if isArray(schema2) {
+		sd.addDiffs(location, addTypeDiff([]TypeDiff{}, TypeDiff{Change: ChangedType, FromType: getSchemaTypeStr(schema1), ToType: getSchemaTypeStr(schema2)}))
 	}
 
 	diffs := CompareProperties(location, schema1, schema2, sd.getRefSchemaFromSpec1, sd.getRefSchemaFromSpec2, sd.compareSchema)
@@ -753,6 +755,8 @@ func (sd *SpecAnalyser) compareSimpleSchema(location DifferenceLocation, schema1
 		} else {
 			sd.addDiffs(location, addTypeDiff([]TypeDiff{}, TypeDiff{Change: ChangedType, FromType: getSchemaTypeStr(schema1), ToType: getSchemaTypeStr(schema2)}))
 		}
+	} else if isArray(schema2) {
+		sd.addDiffs(location, addTypeDiff([]TypeDiff{}, TypeDiff{Change: ChangedType, FromType: getSchemaTypeStr(schema1), ToType: getSchemaTypeStr(schema2)}))
 	}
 }
 
